@@ -178,6 +178,29 @@ pub fn run(ctx: &Ctx) -> Report {
             }
         }
     }
+    // (1d) sealing after what may have happened on this thread before: a panic caught inside each of the
+    // library's serialising calls (unwinding through them), an unrelated message sealed, an application
+    // attribute that seals an inner message of its own while the outer one is sealed
+    for pre in [vec![Op::Poison(8)], vec![Op::Poison(9)], vec![Op::Poison(10)], vec![Op::Poison(11)], vec![Op::Poison(12)], vec![Op::Elsewhere(0)], vec![Op::Nested(0)], vec![Op::Nested(1)], vec![Op::Elsewhere(1), Op::CustomLazy(2)]] {
+        for (ci, c) in creds.iter().enumerate().take(3) {
+            for seal in [vec![Op::Sha1(ci as u8)], vec![Op::Sha256(ci as u8)], vec![Op::Sha1(ci as u8), Op::Sha256(ci as u8)]] {
+                for with_fp in [false, true] {
+                    let mut ops = pre.clone();
+                    ops.extend(bodies()[1].clone());
+                    ops.extend(seal.clone());
+                    if with_fp {
+                        ops.push(Op::Fp);
+                    }
+                    let p = Prog { class: 0, method: 1, tid, ops };
+                    if let Ok(b) = crate::props::c03::build_prog(&p) {
+                        if b.results.iter().all(|r| r.is_ok()) {
+                            sealed.push((b.bytes, c.clone(), format!("after {} fp={with_fp}", pre.iter().map(|o| o.to_text()).collect::<Vec<_>>().join("+"))));
+                        }
+                    }
+                }
+            }
+        }
+    }
     // (1c) cross product of the dimensions the families above vary one at a time: class x method x
     // credentials x sealing x fingerprint x two bodies, by the real builder ("light": original, bit
     // flips of the type / length field and of the integrity attributes, alternative HMAC values and keys)
